@@ -3,7 +3,7 @@ Run-time contract: the JSONL stream is pipeline_start, one SER per started node 
 each line validates against the schema its record_type maps to; ids shared; upstream lists = canonical edges; all SERs
 succeeded except a final failing one; pipeline_end ok iff the run returned; the original exception reaches the caller; the file
 is closed afterwards.
-Bound: base pipelines of 1..4 nodes x failing node index x failure kinds {processor exception, unresolvable parameter, type gate,
+Bound: base pipelines of 1..4 nodes x failing node index x failure kinds {processor exception (plain, wrapping another exception, with a set argument), unresolvable parameter, type gate,
 undeclared context write, node construction error (unknown parameter, probe without context key), KeyboardInterrupt} x detail
 levels {hash, repr, context, all} x file / directory output."""
 import json, sys, os, tempfile, logging, itertools, glob
@@ -38,6 +38,16 @@ class Boom(FloatOperation):
         raise ValueError("boom")
 
 
+class BoomWrapped(FloatOperation):
+    def _process_logic(self, data):
+        raise RuntimeError(ValueError("inner"))
+
+
+class BoomSetArg(FloatOperation):
+    def _process_logic(self, data):
+        raise ValueError({"low", "high"})
+
+
 class Interrupt(FloatOperation):
     def _process_logic(self, data):
         raise KeyboardInterrupt()
@@ -53,6 +63,8 @@ GOOD = [{"processor": FloatValueDataSourceWithDefault}, {"processor": FloatSquar
         {"processor": FloatCollectValueProbe, "context_key": "seen"}, {"processor": FloatMultiplyOperation, "parameters": {"factor": 2.0}}]
 FAILS = {
     "processor-exception": {"processor": Boom},
+    "processor-exception:wrapping-an-exception": {"processor": BoomWrapped},
+    "processor-exception:set-argument": {"processor": BoomSetArg},
     "unresolvable-parameter": {"processor": FloatMultiplyOperation},
     "type-gate": {"processor": FloatCollectionSumOperation},
     "undeclared-context-write": {"processor": BadWriter},
@@ -152,7 +164,7 @@ for n in (1, 2, 3, 4):
             m = list(nodes[:fail_at]) + [dict(bad)] + list(nodes[fail_at:n - 1]) if fail_at < n else list(nodes) + [dict(bad)]
             for d in (details if thorough else [details[(fail_at + n) % 4]]):
                 check(m, fail_at, kind, d, (fail_at + n) % 3 == 0)
-print(json.dumps({"bound": "pipelines of 1..4 nodes x failing node at every index >= 1 x 7 failure kinds x detail levels {hash,repr,context,all} x file/directory output",
+print(json.dumps({"bound": "pipelines of 1..4 nodes x failing node at every index >= 1 x 9 failure kinds x detail levels {hash,repr,context,all} x file/directory output",
                   "evaluations": evaluations, "distinct_nontrivial": len(distinct),
                   "rule": "distinct = (failure kind, failing index, length); every emitted line validated with jsonschema against the registry schema of its record_type",
                   "failures": failures[:40], "samples": samples}, default=str))
